@@ -255,6 +255,10 @@ def run_item(st, j, fam, L, f, w, extra):
                     arr = f if (j + ig) % 2 else (np.where(np.isnat(f), np.datetime64("1970-01-01"), f), ~np.isnat(f))
                     rma = (np.datetime64("NaT"), (np.datetime64("1970-01-01"), False))[(j + s) % 2]
                 _go(st, L, stat, B(arr, ig=ig, rma=rma))
+        if kind == "int":  # int64 facts with validity also for the float-valued statistics
+            for ig in POLICIES:
+                _go(st, L, "stddev", B((f, ok), ig=ig, rma=FORMATS[(j + ig) % 3]))
+                _go(st, L, "quantile", B((f, ok), p=PROBS[(j + ig) % 6], ig=ig, rma=FORMATS[(j + 1) % 3]))
         return
     onecol = f.ndim == 1
     forms = forms_of(w)
